@@ -77,6 +77,14 @@ theorem C10_sanitised (name : Bytes) (n : Nat) (out : Bytes) (hn : 3 ≤ n)
     subst this
     simp at hdot
 
+/-- at most one `:` of the source is turned into `/` (`converted_colon`) -/
+theorem C10_sanitised_one_colon (name : Bytes) (n : Nat) (out : Bytes) (hn : 3 ≤ n)
+    (h : copyName name n = some out) : colonRewrites (cstr name) out ≤ 1 := by
+  have hr := (C10_sanitised name n out hn h).2.2.2.2.2.2
+  simpa using rewrite_colon_count _ _ _ _ hr
+
+example : copyName (ascii "a:b:c") 32 = some (ascii "a/b:c") := by decide
+
 /-- non-vacuous: the classic `ST-01:kick` style name is accepted and rewritten -/
 example : copyName (ascii "ST-01:kick") 32 = some (ascii "ST-01/kick") := by decide
 example : copyName (ascii "..") 32 = none ∧ copyName (ascii "../x") 32 = none ∧ copyName (ascii "/etc/passwd") 32 = none ∧
